@@ -285,6 +285,14 @@ impl Monitor for C12 {
             }
             Mode::General => (*rng.pick(&[3.0, 0.1, 2.5, 7.0, 0.3]), if c.irrational { *rng.pick(&[0.0, 1.0, -2.5]) } else { *rng.pick(&[0.0, 1.0, -2.5, 10.0]) }),
         };
+        // a quarter of the offset trials shifts the stream so that its first sample is exactly 0
+        // (a sentinel such as "min == 0 means nothing seen yet" shows only there)
+        let (a, b) = if c.rel == Rel::AffineInvariant && !xs.is_empty() && rng.chance(1, 4) && (mode == Mode::Exact || (mode == Mode::Pow2 && c.differences_only && a.log2().abs() <= 20.0)) {
+            out.count("offset_trials_with_first_sample_mapped_to_zero", 1);
+            (a, -a * xs[0])
+        } else {
+            (a, b)
+        };
         // in Pow2 mode an offset is only bit-exact for the difference-only views; the others of the
         // affine list get b = 0 there (their offset invariance is decided at the exact scalar)
         out.key(mix(hash_str(&format!("{}{:?}{:?}{}{}", c.spec.show(), c.rel, mode, a, b)), gen::hash_f64s(&xs)));
